@@ -4,7 +4,7 @@
     ACCEPTED keys, one key each (with rejection: constraints by
     [__are_constraints_violated]).
     [count_exact]: for designs that need no rejection step ([Frag.rejection_free]:
-    only Cross / Consistency / MinimumTrials / Exclude) every key is accepted and
+    only Cross / Consistency / MinimumTrials / Exclude, and one crossing) every key is accepted and
     the number of valid sequences is [possible_keys] = preamble_solution_count *
     solution_count ^ rounds_per_run * leftover_solution_count.  NOTE: the
     property text asks that [metrics['solution_count']] equal the number of
@@ -175,3 +175,12 @@ Theorem C06_keys_count : forall (fb : flat) (en : enumerator) (ks : list key),
   NoDup ks /\ Z.of_nat (length ks) = possible_keys fb en.
 Proof. exact keys_count_general. Qed.
 Print Assumptions C06_keys_count.
+
+Example C06_example_multicross :
+  frag2 ex4_flat = true /\ rejection_free ex4_flat = false /\ length (keys_of ex4_flat) = 162 /\
+  length (accepted_keys ex4_flat) = 36 /\ length (all_valid (code_sem ex4_flat)) = 36 /\
+  check_accepted_count ex4_flat = true.
+Proof.
+  split; [exact ex4_frag2|]. split; [reflexivity|]. split; [exact ex4_nkeys|]. split; [exact ex4_nacc|].
+  split; [exact ex4_nvalid | exact ex4_acount].
+Qed.
